@@ -13,6 +13,8 @@ def strategies(ctx, quick_n=120, thorough_n=3000, dfs_quick=1, dfs_thorough=2, d
 def make_jobs(ctx, driver, variants, programs, group_of=lambda v: "default", strat=None, extra_of=lambda v: (), time_limit=None):
     jobs = []
     st = strat or strategies(ctx)
+    if time_limit is None and not ctx.quick():
+        time_limit = 150          # thorough tier: no single exploration job runs longer than this (seconds)
     k = 0
     for v in variants:
         for p in programs:
